@@ -38,6 +38,7 @@ type SimCfg struct {
 	SpawnHold  int
 	QuantumNS  int64
 	FuncYield  bool
+	StmtYield  bool
 	MaxSteps   int64
 	Background bool // real Flusher + HintDumper loops run as tasks
 	DumperSecs int
@@ -124,7 +125,11 @@ func genCfg(r *Rng, small bool) SimCfg {
 	c.SpawnHold = r.Pick(5, 50, 500, 5000)
 	c.QuantumNS = r.Pick64(1000, 100000, 1000000, 10000000)
 	c.FuncYield = r.Bool(1, 3)
+	c.StmtYield = c.FuncYield && r.Bool(1, 3)
 	c.MaxSteps = 400000
+	if c.StmtYield {
+		c.MaxSteps = 1600000
+	}
 	c.Background = r.Bool(3, 4)
 	c.DumperSecs = r.Pick(1, 10, 60)
 	c.normalize()
@@ -180,7 +185,7 @@ func (c *SimCfg) apply(home string) {
 func (c *SimCfg) worldCfg(epoch int64) simrt.Config {
 	return simrt.Config{
 		Policy: c.Policy, PreemptDen: c.PreemptDen, PCTDepth: c.PCTDepth, PCTSteps: c.PCTSteps,
-		SpawnHold: c.SpawnHold, QuantumNS: c.QuantumNS, MaxSteps: c.MaxSteps, FuncYield: c.FuncYield,
+		SpawnHold: c.SpawnHold, QuantumNS: c.QuantumNS, MaxSteps: c.MaxSteps, FuncYield: c.FuncYield, StmtYield: c.StmtYield,
 		EpochUnix: epoch,
 	}
 }
